@@ -107,7 +107,7 @@ package lexer
 //@ ensures [literal] pieceKind(s.source, a) == 1 && pieceType(s.source, a) == token.STRING ==> s.tokens[old(len(s.tokens))].Literal == mkStr(text(s.source, a+1, s.current-1))
 //@ ensures [number] pieceKind(s.source, a) == 1 && pieceType(s.source, a) == token.NUMBER ==> s.tokens[old(len(s.tokens))].Literal == mkNum(ext.parsefloat.val(trStr(text(s.source, a, s.current))))
 
-//@ func NewScanner [C09]
+//@ func NewScanner [C09,C10,C08,C01]
 //@ ensures [fields] result != nil && result.source == source && len(result.tokens) == 0 && result.start == 0 && result.current == 0 && result.line == 1
 
 // ScanTokens: the pieces handled by scanToken are contiguous (each starts where the previous one ended) and cover the text;
